@@ -320,6 +320,9 @@ pub enum Values {
     Scaled(i32),
     AllBits,
     Degenerate(u8),
+    /// one magnitude per *vector*: uniform in [-1,1) times 10^k with k drawn per vector from
+    /// {-9,-8,-8,-4,0,0,0,2,3,6} (and 19 when the flag is set: squared norms overflow f32)
+    Mixed(bool),
 }
 
 #[derive(Clone, Debug)]
@@ -448,6 +451,11 @@ pub fn gen_vec(rng: &mut StdRng, dims: usize, values: Values, pool: &[Vec<f32>])
             })
             .collect(),
         Values::Degenerate(k) => crate::props::degenerate::gen_degenerate(rng, dims, k, pool),
+        Values::Mixed(huge) => {
+            const KS: [i32; 11] = [-9, -8, -8, -4, 0, 0, 0, 2, 3, 6, 19];
+            let k = KS[rng.gen_range(0..if huge { 11 } else { 10 })];
+            (0..dims).map(|_| rng.gen_range(-1.0f32..1.0) * 10f32.powi(k)).collect()
+        }
     }
 }
 
